@@ -117,6 +117,50 @@ def extras_systematic():
     return out
 
 
+CROSS_SHAPES = [
+    # sequences / choices with common heads and tails (rotate, concatenate, factor)
+    '"a" ~ "b" | "a"', 'b ~ "a" | b', '"a" | "a" ~ "b"', '"a" ~ "b" | "a" ~ "c"', '("a" ~ "b") ~ "c"', '"a" ~ ("b" ~ "c")', '("a" | "b") | "c"', 'b ~ "x" | b ~ "y" | b',
+    # repetitions of every kind (unroll), lists, skip patterns
+    '"a"+ ~ "b"', 'b{2} ~ "a"', 'b{1,2} ~ "b"', 'b{,2} ~ "a"', 'b{2,} ~ "a"?', '("a" ~ "b")* ~ "a"', '(b ~ "a")* ~ b', '(!"b" ~ ANY)* ~ "b"', '(!(b | "c") ~ ANY)*', '(b ~ "/")* ~ ANY',
+    # predicates, optional parts, nested branching
+    '!b ~ ANY | b', '&b ~ ANY ~ "a"?', '!(b ~ "a") ~ ANY*', '(b ~ "!") | (ANY ~ "?")', '(b ~ "a"?)? ~ "b"', '("x" | b | "a")* ~ EOI', '(b? ~ "a")+', 'SOI ~ b* ~ EOI',
+    # the stack: transactions across choice / optional / repetition / predicates, slices, zero-width repetitions
+    'PUSH(b) ~ POP', 'PUSH(b) ~ ("x" | POP | "a") ~ PEEK_ALL', 'PUSH(b) ~ (POP ~ "x")? ~ DROP', 'PUSH(b) ~ PUSH(ANY) ~ (PEEK[..] | PEEK_ALL)', 'PUSH(b) ~ PUSH(b) ~ DROP* ~ ANY?',
+    '(PUSH(b) ~ "x" | b) ~ (PEEK | ANY)', 'PUSH(b) ~ !(POP ~ "x") ~ PEEK', 'PUSH(ANY) ~ (PUSH(b) ~ (POP ~ POP) ~ "!" | PEEK ~ b)', 'PUSH(b)* ~ POP_ALL ~ ANY?', 'PUSH(b) ~ (POP_ALL ~ "x" | ANY)* ~ PEEK_ALL',
+]
+CROSS_B = ['"b"', '"b" ~ "a"?', '"b"+', "'a'..'c'", '"b" | "ab"', '"b" ~ "b"', '^"B"', 'ANY']
+CROSS_IMPL = [(None, None), ('_{ " " }', None), ('{ " " }', None), (None, '_{ "#" }'), ('_{ " " }', '_{ "#" ~ "b"? }'), ('@{ " "+ }', None), (None, '${ "#" ~ "a"? }'), ('_{ " " | "\t" }', '{ "#" }')]
+
+
+def crossed():
+    """every shape x every value of one context dimension at a time (type of rule a, type of rule b, body of rule b, implicit
+    rules), plus the full product of the two rule types for every shape under implicit whitespace.  Most seeded changes that
+    the checks missed at first needed an ordinary construct in an unusual *context*; this family spells the contexts out."""
+    out = []
+    for s in CROSS_SHAPES:
+        for m in MODS: out.append(grammar_text(s, m, '"b"', ""))
+        for m2 in MODS: out.append(grammar_text(s, "", '"b"', m2))
+        for bb in CROSS_B: out.append(grammar_text(s, "", bb, ""))
+        for ws, cm in CROSS_IMPL: out.append(grammar_text(s, "", '"b"', "", ws, cm))
+        for m in MODS:
+            for m2 in MODS: out.append(grammar_text(s, m, '"b" ~ "a"?', m2, '_{ " " }', None))
+        for m in ("@", "$", "!"):
+            for ws, cm in CROSS_IMPL[3:]: out.append(grammar_text(s, m, '"b"', "", ws, cm))
+    seen = set(); res = []
+    for g in out:
+        if g not in seen: seen.add(g); res.append(g)
+    return res
+
+
+def crossed_slice(seed, k):
+    """a slice of the crossed family that rotates with the seed (k = 0: all of it)"""
+    c = crossed()
+    if not k or k >= len(c): return c
+    random.Random(1234).shuffle(c)            # fixed order, then a window chosen by the seed
+    n = len(c); start = (seed * k) % n
+    return (c + c)[start:start + k]
+
+
 def family(seed, count, depth=3, extras=False):
     """systematic part first (seed-rotated so that a small count still samples it differently per seed), then random"""
     rng = random.Random(seed)
